@@ -29,7 +29,7 @@ MANIFEST = {
 EXPLANATION = MANIFEST["level_text"]
 TRUSTED = [
     "pyvc VC generator, slicer (pyvc/slicing.py) and string encoding",
-    "z3 5.1.0 / cvc5 1.0.3",
+    "z3 5.1.0 / cvc5 1.4.0",
     "falcon: an exception in process_request prevents dispatch; URI-template matching = one non-empty slash-free segment per field; literal segments take precedence over fields; middleware runs in list order",
 ]
 ASSUMPTIONS = [
